@@ -8,6 +8,7 @@ re-applying operations to the same source.  After every operation, on every
 live schema: closure, removal, preservation, source-untouched.
 """
 import hashlib
+import json
 
 from py_gql import build_schema, graphql_blocking
 from py_gql.exc import GraphQLError, SDLError
@@ -48,6 +49,38 @@ def _named(t):
     return t
 
 
+def _abstract_use_problem(schema):
+    """The code-built pool schemas resolve ``Thing`` / ``AB`` with functions
+    returning type objects: as long as a live schema still has those types
+    and root fields, values are resolved through them as on the source."""
+    q = schema.query_type
+    if q is None or not all(n in schema.types for n in ("Thing", "AB", "A",
+                                                        "B")):
+        return None
+    rt = schema.types["Thing"].resolve_type
+    if getattr(rt, "__name__", "") != "rt_objects" or \
+            schema.types["AB"].resolve_type is not rt:
+        return None
+    if "thing" not in q.field_map or "ab" not in q.field_map or any(
+            "name" not in schema.types[n].field_map for n in ("A", "B",
+                                                               "Thing")):
+        return None
+    root = {"thing": {"name": "n"},
+            "ab": [{"name": "x"}, {"name": "y", "peer": None}]}
+    doc = "{ thing { __typename name } ab { __typename } }"
+    want = {"thing": {"__typename": "A", "name": "n"},
+            "ab": [{"__typename": "A"}, {"__typename": "B"}]}
+    try:
+        r = graphql_blocking(schema, doc, root=root)
+    except Exception as err:  # noqa: B902
+        return "values of abstract type can no longer be resolved: %r" % (
+            err,)
+    if r.errors or json.loads(json.dumps(r.data)) != want:
+        return "abstract values resolved to %r %r, expected %r" % (
+            r.data, r.errors, want)
+    return None
+
+
 # ---------------------------------------------------------------------------
 # decorations
 # ---------------------------------------------------------------------------
@@ -77,7 +110,7 @@ def decorate(schema, st):
             if st.chance(1, 3, "tdef"):
                 schema.register_default_resolver(tname, _mk("%s.*" % tname))
         if isinstance(t, (InterfaceType, UnionType)):
-            if st.chance(1, 2, "rt"):
+            if st.chance(1, 2, "rt") and t.resolve_type is None:
                 t.resolve_type = _mk("rt:" + tname)
     if schema.subscription_type is not None:
         for f in schema.subscription_type.fields:
@@ -876,6 +909,11 @@ def run_machine(draws, state, tier):
                 graphql_blocking(src.schema, "{ __typename }")
                 src.schema.to_string()
                 src.schema.validate()
+                pb = _abstract_use_problem(src.schema)
+                if pb:
+                    fail("attribute_lost", ("use", "resolve_type-unusable"),
+                         "live[%d] (%s): %s" % (li, src.origin, pb))
+                    break
             except SchemaValidationError as err:
                 if not src.maybe_invalid:
                     fail("source_modified", ("use", "invalid"),
